@@ -705,7 +705,73 @@ def special_decorated(res):
         dropmod("tlg_c10_deco")
 
 
-SPECIALS = {"twin-modules": special_twin_modules, "leading-varargs": special_leading_varargs, "decorated": special_decorated}
+_CLASSES_SRC = """
+import decimal, typing
+
+class Account:
+    # the class body annotates `balance` / `owner` (what the ATTRIBUTES hold); the constructor takes other types under the same names
+    balance: decimal.Decimal
+    owner: int
+    def __init__(self, balance: str, owner: str = "nobody", *tags: int):
+        self.args = (balance, owner, tags)
+
+class Caller:
+    limit: decimal.Decimal
+    def __call__(self, limit: str, n: int = 0):
+        return ("called", limit, n)
+
+class Price(typing.NamedTuple):
+    amount: float
+    currency: int = 978
+    cents: int = 0
+
+class InheritedPrice(Price):
+    # inherits its fields, adds only a method (no annotations of its own)
+    def total(self):
+        return self.amount
+"""
+
+
+def special_classes(res):
+    """classes as callables: the parameters (and annotations) are those of the constructor signature; a class body annotating the
+    same names differently, and a class that inherits its NamedTuple fields, do not change that"""
+    cold.clear_all()
+    m = mkmod("tlg_c10_classes", _CLASSES_SRC)
+    try:
+        table = [
+            ("Account", m.Account, ((15, 7, "3"), {}), lambda r: r.args, ("15", "7", (3,))),
+            ("Account", m.Account, ((15,), {"owner": 7}), lambda r: r.args, ("15", "7", ())),
+            ("Caller", m.Caller(), ((15, "2"), {}), lambda r: r, ("called", "15", 2)),
+            ("Price", m.Price, (("1.5", "840"), {"cents": "25"}), tuple, (1.5, 840, 25)),
+            ("InheritedPrice", m.InheritedPrice, (("1.5", "840"), {"cents": "25"}), tuple, (1.5, 840, 25)),
+            ("InheritedPrice", m.InheritedPrice, (("2",), {}), tuple, (2.0, 978, 0)),
+        ]
+        for api in ("bind", "wrap"):
+            for name, target, (a, k), view, exp in table:
+                if api == "wrap" and name in ("Account", "Price", "InheritedPrice"):
+                    continue  # wrap() of a class patches the class in place: judged by the enumeration's class flavour
+                cold.clear_all()
+                res.programs += 1
+                res.evals += 1
+                res.hit(f"special:classes:{api}:{name}")
+                b = gcall(getattr(typelib.binding, api), target)
+                out = gcall(lambda: view(b.val(*a, **k))) if b.ok else b
+                key = h64("classes", api, name, repr(a), repr(k), out.ok, repr(out.val) if out.ok else out.excname)
+                res.outcomes.add(key)
+                if out.ok:
+                    res.nontrivial.add(key)
+                if not (out.ok and fsame(out.val, exp)):
+                    got = repr(out.val) if out.ok else f"raises {out.excname}: {str(out.exc)[:80]}"
+                    res.violation(
+                        f"C10/special/class-as-callable/{name}/" + ("wrong-conversion" if out.ok else "raises:" + out.excname),
+                        f"{api}({name}) called with {a!r} {k!r}: the constructor received {got}, expected {exp!r} (inspect.signature({name}) = {inspect.signature(target)})",
+                        {"special": "classes"},
+                    )
+    finally:
+        dropmod("tlg_c10_classes")
+
+
+SPECIALS = {"classes": special_classes, "twin-modules": special_twin_modules, "leading-varargs": special_leading_varargs, "decorated": special_decorated}
 
 
 def _masks_full_first(n, masks):
